@@ -28,8 +28,9 @@ class ScriptedServer(refms.RefServer):
 # ---------------------------------------------------------------------------------------------
 # reply grammar (bounded exhaustive)
 
-RCODES = [None, b"QUOTA", b"QUOTA/MAXSIZE", b'TAG "x"', b"WARNINGS"]
-TEXTS = [None, ("q", b"x y"), ("q", b'a"b\\c'), ("q", b""), ("l", b"lit text"), ("l", b"two\r\nlines"), ("q", b"\xc3\xa9t\xc3\xa9")]
+RCODES = [None, b"QUOTA", b"QUOTA/MAXSIZE", b'TAG "x"', b"WARNINGS", b'TAG "{7}"']
+TEXTS = [None, ("q", b"x y"), ("q", b'a"b\\c'), ("q", b""), ("l", b"lit text"), ("l", b"two\r\nlines"), ("q", b"\xc3\xa9t\xc3\xa9"),
+         ("q", b"variable ${1} used, {2} of 5"), ("l", b"{3}")]
 
 
 def status_variants(codes=(b"OK", b"NO", b"BYE"), rcodes=RCODES, texts=TEXTS):
